@@ -1252,6 +1252,19 @@ pub fn main_script(args: &Args) -> i32 {
 // digests of exposed shards next to a fresh reference codec's) and Trace_Codec.tla alone decides.
 
 fn pick_cfg(rng: &mut impl Rng, kind: Kind, big_shards: bool) -> (usize, usize, usize) {
+    // now and then a valid configuration ON the envelope boundary (no shards are added to those)
+    if !big_shards && rng.gen_range(0..100) < 4 {
+        let edge = [(65535usize, 1usize), (1, 65535), (61440, 4096), (4096, 61440), (32768, 32768), (65534, 2), (2, 65534), (49152, 16384)];
+        let (k, r) = *edge.choose(rng).unwrap();
+        let ok = match kind {
+            Kind::High => crate::dut::supports_rate("high", k, r),
+            Kind::Low => crate::dut::supports_rate("low", k, r),
+            _ => true,
+        };
+        if ok {
+            return (k, r, 2);
+        }
+    }
     loop {
         let lim = match rng.gen_range(0..10) {
             0..=5 => 8,
